@@ -126,6 +126,16 @@ CHECKS["C08"] = dict(
     design="§3 C08",
 )
 
+CHECKS["C09"] = dict(
+    category="exploration",
+    text="EVERY directed graph of input->input references on 2 and 3 input types (self loops and cycles included: 16 + 512 graphs) with enums attached to inputs, results, nested results, variables, "
+         "fragments (spread and unspread) or nothing x operation sets x the four flag combinations; each package is compared with a reference closure computed with graphql-core TypeInfo "
+         "(required <= present <= allowed), with the unpruned package class by class (source text), and by behaviour (request sent, accepted result) per operation.",
+    note="Trusted: graphql-core TypeInfo/visit for the reference closure, ast.get_source_segment for class texts.",
+    technique="exhaustive enumeration of all dependency graphs up to 3 nodes x flag combinations through the real generator with a reference reachability closure",
+    design="§3 C09",
+)
+
 PENDING_REASON = "check not built yet in this round (work in progress, see DESIGN.md §6)"
 NOT_APPLICABLE = {}
 
